@@ -159,7 +159,9 @@ func entry(resource string, options *EntryOptions) (*base.SentinelEntry, *base.B
 	ctx.Input.BatchCount = options.batchCount
 	ctx.Input.Flag = options.flag
 	if len(options.args) != 0 {
-		ctx.Input.Args = options.args
+		// copy: options is recycled to entryOptsPool when Entry returns, so the next Entry
+		// would overwrite the arguments of this (still live) entry through the shared array.
+		ctx.Input.Args = append(ctx.Input.Args[:0], options.args...)
 	}
 	if len(options.attachments) != 0 {
 		ctx.Input.Attachments = options.attachments
